@@ -28,6 +28,23 @@ Proof.
   - now rewrite Z.min_r by lia.
 Qed.
 
+Lemma fmul_z2f_zf : forall s i c, fmul (z2f i) (Fq (qz s c)) = zf s (i * c).
+Proof. intros. unfold fmul, z2f, zf. now rewrite qz_mul_int_l. Qed.
+
+Lemma fadd_zf_0 : forall s a, fadd (zf s a) (Fq 0) = zf s a.
+Proof. intros. unfold fadd, zf. now rewrite qz_add_0. Qed.
+
+(* an entry of del_mat as the source builds it: (row0[i] - row0[j]) + (inf above the diagonal, else 0) *)
+Lemma del_entry_src : forall s cd i j,
+  fadd (fsub (fmul (z2f (Z.of_nat i)) (Fq (qz s cd))) (fmul (z2f (Z.of_nat j)) (Fq (qz s cd))))
+       (if (i + 1 <=? j)%nat then FPInf else Fq 0)
+  = ofx s (Model.del_entry cd i j).
+Proof.
+  intros. rewrite !fmul_z2f_zf, fsub_zf. unfold Model.del_entry.
+  replace (j <=? i)%nat with (negb (i + 1 <=? j)%nat) by lia.
+  destruct (i + 1 <=? j)%nat; cbn [negb ofx]; [reflexivity|apply fadd_zf_0].
+Qed.
+
 Lemma fadd_ofx_zf : forall s o x, fadd (ofx s o) (zf s x) = ofx s (Model.oadd o x).
 Proof. intros s [a|] x; cbn [ofx Model.oadd]; [apply fadd_zf|reflexivity]. Qed.
 
